@@ -45,6 +45,8 @@ FIXES = [
  ('C01',"is not a file header when diff -u output starts with","delta.rs: in plain diff output that starts with a `diff -u a b` / `Only in` line, a removed line `--- x` followed by `+++ y` inside a hunk was rendered as a new file header and the rest of the hunk was lost (also C14)"),
  ('C04','an over-long line with invalid UTF-8 is truncated like any other line','delta.rs: a line with invalid UTF-8 longer than max-line-length was cut without the truncation symbol (and without the exemptions for hunk headers / rg --json records)'),
  ('C08','a long hunk header colored by git is exempt','delta.rs: a hunk header longer than max-line-length was truncated when git had coloured it (`ESC[36m@@ ...`) but not when uncoloured: the exemption tested the raw line for a leading `@@`'),
+ ('C04','(never truncate) is honoured in side-by-side mode too','wrapping.rs: with side-by-side and wrapping, `--max-line-length 0` (documented: never truncate) was replaced by a computed finite limit (max(0, computed)), so long pass-through and hunk lines were cut although the user asked for no truncation'),
+ ('C08','only treated as a line ending when nothing but escape sequences follows','delta.rs: a carriage return inside a line followed only by zero-width text (combining characters) was removed from uncoloured input (the rest had display width 0) but kept when git had coloured the same line, so coloured and plain input rendered differently (also C04: a byte of passed-through text dropped)'),
 ]
 out = []
 for prop, pat, what in FIXES:
